@@ -1,0 +1,190 @@
+//go:build verif
+
+// Contracts for govc (contract-based deductive verification, see /verif/DESIGN.md): gocc's own (hand-maintained)
+// table-driven parser. This file contains comments only; it is compiled only with -tags=verif and adds no code.
+
+package parser
+
+//@ package parser
+//@
+//@ # ---- table vocabulary (rows are maps: a missing key is "no action") ----
+//@ spec fhas(P *Parser, s int, t int) bool = has(P.actTab[s].Actions, t)
+//@ spec fact(P *Parser, s int, t int) Action = P.actTab[s].Actions[t]
+//@ spec fisShift(a Action) bool = typeis(a, Shift)
+//@ spec fisReduce(a Action) bool = typeis(a, Reduce)
+//@ spec fisAccept(a Action) bool = typeis(a, Accept)
+//@ # well-formed tables: every row present, every stored action in range
+//@ spec FWF(P *Parser) bool = P != nil && P.stack != nil && P.tokenMap != nil && len(P.gotoTab) == len(P.actTab) && len(P.actTab) >= 1
+//@   | && all(s, 0, len(P.actTab), P.actTab[s] != nil && P.actTab[s].Actions != nil, trig(P.actTab[s]))
+//@   | && forall2(s, t, imp(0 <= s && s < len(P.actTab) && fhas(P, s, t), (fisShift(fact(P, s, t)) && 0 <= as(fact(P, s, t), Shift) && as(fact(P, s, t), Shift) < len(P.actTab))
+//@   |      || (fisReduce(fact(P, s, t)) && 0 <= as(fact(P, s, t), Reduce) && as(fact(P, s, t), Reduce) < len(P.prodTab)) || fisAccept(fact(P, s, t))), trig(fact(P, s, t)))
+//@   | && all(r, 0, len(P.prodTab), P.prodTab[r].NumSymbols >= 0, trig(P.prodTab[r]))
+//@   | && all(s, 0, len(P.gotoTab), forallS(h, imp(has(P.gotoTab[s], h), 0 <= P.gotoTab[s][h] && P.gotoTab[s][h] < len(P.actTab))), trig(P.gotoTab[s]))
+//@ # C14: the checked-in tables have no recovery state (validated on tables.go by lrref: canrecover_rows = [])
+//@ spec FNoRecovery(P *Parser) bool = all(s, 0, len(P.actTab), !P.actTab[s].canRecover, trig(P.actTab[s]))
+//@ spec fTop(P *Parser) int = P.stack.state[len(P.stack.state)-1]
+//@ spec fstackOK(P *Parser) bool = len(P.stack.state) == len(P.stack.attrib) && len(P.stack.state) >= 1 && all(k, 0, len(P.stack.state), 0 <= P.stack.state[k] && P.stack.state[k] < len(P.actTab))
+//@
+//@ ghostvar FScanK int
+//@ func parser.(Scanner).Scan
+//@   trusted
+//@   ensures [tok] result0 != nil && FScanK == old(FScanK) + 1
+//@   assigns global(ghost.FScanK)
+//@
+//@ func token.(*TokenMap).TokenString
+//@   trusted
+//@   assigns nothing
+//@ func token.(*TokenMap).Type
+//@   trusted
+//@   assigns nothing
+//@ func token.(Position).String
+//@   trusted
+//@   assigns nothing
+//@ func .(error).Error
+//@   trusted
+//@   assigns nothing
+//@ func parser.(Action).String
+//@   trusted
+//@   assigns nothing
+//@
+//@ func (*stack).reset
+//@   prop C14 C15
+//@   requires [s] this != nil
+//@   ensures [empty] len(this.state) == 0 && len(this.attrib) == 0
+//@   ensures [arr] arr(this.state) == old(arr(this.state)) && arr(this.attrib) == old(arr(this.attrib))
+//@   assigns this.state, this.attrib
+//@
+//@ func (*stack).Push
+//@   prop C14 C15
+//@   requires [s] this != nil && len(this.state) == len(this.attrib)
+//@   ensures [len] len(this.state) == old(len(this.state)) + 1 && len(this.attrib) == len(this.state)
+//@   ensures [below] all(k, 0, old(len(this.state)), this.state[k] == old(this.state[k]) && this.attrib[k] == old(this.attrib[k]))
+//@   ensures [top] this.state[old(len(this.state))] == s && this.attrib[old(len(this.state))] == a
+//@   ensures [arr] (arr(this.state) == old(arr(this.state)) || arr(this.state) >= old(alloc())) && (arr(this.attrib) == old(arr(this.attrib)) || arr(this.attrib) >= old(alloc()))
+//@   assigns this.state, this.attrib, elems(this.state), elems(this.attrib)
+//@
+//@ func (*stack).Top
+//@   prop C14 C15
+//@   requires [nonempty] this != nil && len(this.state) >= 1
+//@   ensures [top] result == this.state[len(this.state)-1]
+//@   assigns nothing
+//@
+//@ func (*stack).Peek
+//@   prop C14
+//@   requires [range] this != nil && 0 <= pos && pos < len(this.state)
+//@   ensures [elem] result == this.state[pos]
+//@   assigns nothing
+//@
+//@ func (*stack).TopIndex
+//@   prop C14
+//@   requires [s] this != nil
+//@   ensures [idx] result == len(this.state) - 1
+//@   assigns nothing
+//@
+//@ func (*stack).PopN
+//@   prop C14 C15
+//@   requires [range] this != nil && len(this.state) == len(this.attrib) && 0 <= items && items <= len(this.state)
+//@   ensures [len] len(this.state) == old(len(this.state)) - items && len(this.attrib) == len(this.state)
+//@   ensures [below] all(k, 0, len(this.state), this.state[k] == old(this.state[k]) && this.attrib[k] == old(this.attrib[k]))
+//@   ensures [popped] len(result) == items
+//@   ensures [arr] arr(this.state) == old(arr(this.state)) && off(this.state) == old(off(this.state)) && arr(this.attrib) == old(arr(this.attrib)) && off(this.attrib) == old(off(this.attrib))
+//@   assigns this.state, this.attrib
+//@
+//@ func (*Parser).Reset
+//@   prop C14 C15
+//@   requires [p] P != nil && P.stack != nil
+//@   ensures [init] len(P.stack.state) == 1 && len(P.stack.attrib) == 1 && P.stack.state[0] == 0
+//@   ensures [arr] (arr(P.stack.state) == old(arr(P.stack.state)) || arr(P.stack.state) >= old(alloc())) && (arr(P.stack.attrib) == old(arr(P.stack.attrib)) || arr(P.stack.attrib) >= old(alloc()))
+//@   assigns P.stack.state, P.stack.attrib, elems(P.stack.state), elems(P.stack.attrib)
+//@
+//@ func (*Parser).firstRecoveryState
+//@   prop C14
+//@   requires [wf] FWF(P) && fstackOK(P)
+//@   ensures [found] imp(canRecover, 0 <= recoveryState && recoveryState < len(P.stack.state) && P.actTab[P.stack.state[recoveryState]].canRecover)
+//@   ensures [none] imp(FNoRecovery(P), !canRecover)
+//@   assigns nothing
+//@   loop 1
+//@     invariant [range] 0 <= recoveryState && recoveryState < len(P.stack.state)
+//@     invariant [flag] canRecover == P.actTab[P.stack.state[recoveryState]].canRecover
+//@     decreases recoveryState
+//@
+//@ func (*Parser).popNonRecoveryStates
+//@   prop C14
+//@   requires [wf] FWF(P) && fstackOK(P)
+//@   ensures [stack] fstackOK(P)
+//@   # C14: without a recovery state nothing is discarded
+//@   ensures [none] imp(FNoRecovery(P), len(P.stack.state) == old(len(P.stack.state)) && len(removedAttribs) == 0 && all(k, 0, len(P.stack.state), P.stack.state[k] == old(P.stack.state[k]) && P.stack.attrib[k] == old(P.stack.attrib[k])))
+//@   ensures [arr] arr(P.stack.state) == old(arr(P.stack.state)) && arr(P.stack.attrib) == old(arr(P.stack.attrib))
+//@   assigns P.stack.state, P.stack.attrib
+//@   loop 1
+//@     invariant [len] len(removedAttribs) == len(errorSymbols) && arr(removedAttribs) >= old(alloc())
+//@
+//@ # C14: the front end never recovers: with no recovery state in the tables, Error changes nothing, scans nothing,
+//@ # pushes nothing and reports recovered == false, so that Parse returns the error
+//@ func (*Parser).Error
+//@   prop C14 C15
+//@   requires [wf] FWF(P) && FNoRecovery(P) && fstackOK(P) && P.nextToken != nil
+//@   # with no recovery state the code after the early return (push of the error symbol, skip loop) is dead
+//@   allow_unreachable loop2-body return@parser.go:211
+//@   ensures [not-recovered] !recovered && errorAttrib != nil
+//@   ensures [untouched] len(P.stack.state) == old(len(P.stack.state)) && all(k, 0, len(P.stack.state), P.stack.state[k] == old(P.stack.state[k]) && P.stack.attrib[k] == old(P.stack.attrib[k]))
+//@   ensures [arr] arr(P.stack.state) == old(arr(P.stack.state)) && arr(P.stack.attrib) == old(arr(P.stack.attrib))
+//@   ensures [nothing-scanned] FScanK == old(FScanK) && P.nextToken == old(P.nextToken) && errorAttrib.ErrorToken == old(P.nextToken)
+//@   assigns P.nextToken, P.pos, P.stack.state, P.stack.attrib, elems(P.stack.state), elems(P.stack.attrib), global(ghost.FScanK)
+//@   loop 1
+//@     invariant [attr] errorAttrib != nil && errorAttrib >= old(alloc()) && errorAttrib.ErrorToken == old(P.nextToken) && arr(errorAttrib.ExpectedTokens) >= old(alloc())
+//@
+//@ func (*Parser).TokString
+//@   prop C14
+//@   requires [tok] P != nil && P.tokenMap != nil && tok != nil
+//@   assigns nothing
+//@
+//@ func (*Parser).newError
+//@   prop C14
+//@   requires [p] P != nil && P.stack != nil && P.tokenMap != nil && P.nextToken != nil && len(P.stack.state) >= 1
+//@   requires [row] 0 <= fTop(P) && fTop(P) < len(P.actTab) && P.actTab[fTop(P)] != nil
+//@   ensures [nonnil] result != nil
+//@   assigns nothing
+//@
+//@ # ---- viable-stack interface of the front-end tables (validated on tables.go by lrref; trusted LR theorem) ----
+//@ specfun FViable(v seq[int], n int) bool
+//@ spec fNS(P *Parser, a Action) int = P.prodTab[as(a, Reduce)].NumSymbols
+//@ spec fGoto(P *Parser, s int, a Action) int = ite(has(P.gotoTab[s], P.prodTab[as(a, Reduce)].Head), P.gotoTab[s][P.prodTab[as(a, Reduce)].Head], 0)
+//@ spec fvStates(P *Parser, v seq[int], n int) bool = imp(FViable(v, n), n >= 1 && all(i, 0, n, 0 <= v[i] && v[i] < len(P.actTab)))
+//@ spec fvShift(P *Parser, v seq[int], n int, t int) bool = imp(FViable(v, n) && fhas(P, v[n-1], t) && fisShift(fact(P, v[n-1], t)), FViable(store(v, n, as(fact(P, v[n-1], t), Shift)), n+1))
+//@ spec fvReduce(P *Parser, v seq[int], n int, t int) bool = imp(FViable(v, n) && fhas(P, v[n-1], t) && fisReduce(fact(P, v[n-1], t)),
+//@   | n > fNS(P, fact(P, v[n-1], t)) && FViable(store(v, n-fNS(P, fact(P, v[n-1], t)), fGoto(P, v[n-1-fNS(P, fact(P, v[n-1], t))], fact(P, v[n-1], t))), n-fNS(P, fact(P, v[n-1], t))+1))
+//@ spec fvAccept(P *Parser, v seq[int], n int, t int) bool = imp(FViable(v, n) && fhas(P, v[n-1], t) && fisAccept(fact(P, v[n-1], t)), n >= 2)
+//@ axiomschema FVInit(v seq[int]) bool = imp(v[0] == 0, FViable(v, 1))
+//@ axiomschema FVStates(P *Parser, v seq[int], n int) bool = fvStates(P, v, n)
+//@ axiomschema FVShift(P *Parser, v seq[int], n int, t int) bool = fvShift(P, v, n, t)
+//@ axiomschema FVReduce(P *Parser, v seq[int], n int, t int) bool = fvReduce(P, v, n, t)
+//@ axiomschema FVAccept(P *Parser, v seq[int], n int, t int) bool = fvAccept(P, v, n, t)
+//@ axiomschema FVExt(v seq[int], w seq[int], n int) bool = imp(FViable(v, n) && all(i, 0, n, v[i] == w[i]), FViable(w, n))
+//@
+//@ spec fPreHas(P *Parser) bool = at(pre, fhas(P, fTop(P), P.nextToken.Type))
+//@ spec fPreAct(P *Parser) Action = at(pre, fact(P, fTop(P), P.nextToken.Type))
+//@
+//@ # C14/C15: gocc's own Parse executes the LR machine of the tables and never repairs its input: a token without an
+//@ # action ends the parse with an error; tokens are scanned only by shift steps
+//@ func (*Parser).Parse
+//@   prop C14 C15
+//@   requires [wf] FWF(this) && FNoRecovery(this)
+//@   ensures [err] imp(err != nil, res == nil)
+//@   assigns this.nextToken, this.pos, this.stack.state, this.stack.attrib, elems(this.stack.state), elems(this.stack.attrib), global(ghost.FScanK)
+//@   snapshot pre typeswitch 1
+//@   loop 1
+//@     use_entry FVInit(view(this.stack.state))
+//@     use FVStates(this, view(this.stack.state), len(this.stack.state))
+//@     use FVShift(this, view(this.stack.state), len(this.stack.state), this.nextToken.Type)
+//@     use FVReduce(this, view(this.stack.state), len(this.stack.state), this.nextToken.Type)
+//@     use FVAccept(this, view(this.stack.state), len(this.stack.state), this.nextToken.Type)
+//@     invariant [stack] imp(!acc, fstackOK(this))
+//@     invariant [viable] imp(!acc, FViable(view(this.stack.state), len(this.stack.state)))
+//@     invariant [tok] this.nextToken != nil
+//@     invariant [arr] (arr(this.stack.state) == old(arr(this.stack.state)) || arr(this.stack.state) >= old(alloc())) && (arr(this.stack.attrib) == old(arr(this.stack.attrib)) || arr(this.stack.attrib) >= old(alloc()))
+//@     step [no-repair] fPreHas(this) && at(pre, len(this.stack.state)) == head(len(this.stack.state)) && at(pre, FScanK) == head(FScanK) && at(pre, this.nextToken) == head(this.nextToken)
+//@     step [scan-iff-shift] FScanK == head(FScanK) + ite(fisShift(fPreAct(this)), 1, 0)
+//@     step [shift] imp(fisShift(fPreAct(this)), len(this.stack.state) == head(len(this.stack.state)) + 1 && this.stack.state[len(this.stack.state)-1] == as(fPreAct(this), Shift) && this.stack.attrib[len(this.stack.state)-1] == head(this.nextToken))
+//@     step [reduce] imp(fisReduce(fPreAct(this)), len(this.stack.state) == head(len(this.stack.state)) - fNS(this, fPreAct(this)) + 1 && this.nextToken == head(this.nextToken))
+//@     use_end FVExt(store(at(pre, view(this.stack.state)), len(this.stack.state)-1, this.stack.state[len(this.stack.state)-1]), view(this.stack.state), len(this.stack.state))
